@@ -204,6 +204,25 @@ def reads(prog, T, f, cls, depth=0, seen=None):
     return out
 
 
+def self_escapes(prog, f, cls, depth=0, seen=None):
+    """The getter hands its receiver as a whole to a constructor / function (`Writer(self)`), directly or in a property of the receiver
+    it reads: what it computes may then depend on any field of the receiver.  Returns the call text or None."""
+    seen = seen if seen is not None else set()
+    if (f, cls) in seen or depth > 4:
+        return None
+    seen.add((f, cls))
+    for n in walk_own(f.node):
+        if isinstance(n, ast.Call) and any(isinstance(a, ast.Name) and a.id == "self" for a in list(n.args) + [k.value for k in n.keywords]):
+            return ast.unparse(n)[:60]
+        if isinstance(n, ast.Attribute) and isinstance(n.ctx, ast.Load) and isinstance(n.value, ast.Name) and n.value.id == "self":
+            g = prog.lookup(cls, n.attr)
+            if g is not None and g.kind in ("property", "lazyproperty") and g is not f:
+                r = self_escapes(prog, g, cls, depth + 1, seen)
+                if r:
+                    return r
+    return None
+
+
 def _snapshot_of_document(prog, M, T, g):
     """A lazyproperty that materialises a collection (tuple/list/dict/set/comprehension) by iterating document content - the
     XML tree, or a proxy collection over it - takes a snapshot that later edits of the document do not reach.
@@ -275,6 +294,24 @@ def _r21(ctx, prog, M, T):
                 sites = [(f, ln) for f, ln in sites if f is not g]
                 if sites:
                     bad.append((c, n2, sites))
+        # a *value* (not a live object) computed from the receiver as a whole depends on every field of the receiver
+        rt0 = T.ret(g, g.cls)
+        valueish = (not rt0) or any(a[0] in ("prim", "tuple", "list") for a in rt0)
+        esc = None
+        if valueish and not any(a[0] == "inst" for a in (rt0 or ())):
+            # hooks the getter reads may be overridden: the receiver is any class that inherits the getter
+            for k_ in [g.cls] + sorted((k for k in prog.all_classes() if k is not g.cls and g.cls in prog.mro(k) and prog.lookup(k, g.name) is g),
+                                       key=lambda k: k.fq):
+                esc = self_escapes(prog, g, k_)
+                if esc:
+                    break
+        if esc and not bad:
+            for (c, n2), sites in used.items():
+                if c in prog.mro(g.cls) or g.cls in prog.mro(c):
+                    live = [(f, ln) for f, ln, recv in sites if f is not g and f.name != "__init__" and (
+                        recv is None or any(g.cls in prog.mro(k) or k in prog.mro(g.cls) for k in recv))]
+                    if live:
+                        bad.append((c, n2, live))
         if bad and g.cls not in transient:
             transient[g.cls] = transient_class(prog, T, g.cls)
         if bad and transient.get(g.cls):
@@ -472,13 +509,15 @@ def _partname_source(prog, T, f, fc, pn, depth=0):
             return _partname_source(prog, T, f, fc, pn.args[0], depth + 1)
     if isinstance(pn, ast.Attribute) and pn.attr in ALLOCATORS:
         return "allocator %s" % pn.attr
+    if isinstance(pn, ast.IfExp):
+        a_, b_ = _partname_source(prog, T, f, fc, pn.body, depth + 1), _partname_source(prog, T, f, fc, pn.orelse, depth + 1)
+        return "%s | %s" % (a_, b_) if a_ and b_ else None
     if isinstance(pn, ast.Name):
-        # local assigned from an allocator, or a parameter whose every caller passes an allocator result
-        for n in walk_own(f.node):
-            if isinstance(n, ast.Assign) and any(isinstance(t, ast.Name) and t.id == pn.id for t in n.targets):
-                r = _partname_source(prog, T, f, fc, n.value, depth + 1)
-                if r:
-                    return r
+        # local whose EVERY binding comes from an allocator, or a parameter whose every caller passes an allocator result
+        binds = [n.value for n in walk_own(f.node) if isinstance(n, ast.Assign) and any(isinstance(t, ast.Name) and t.id == pn.id for t in n.targets)]
+        if binds:
+            rs = [_partname_source(prog, T, f, fc, v, depth + 1) for v in binds]
+            return " | ".join(sorted(set(rs))) if all(rs) else None
         if pn.id in f.params:
             ps = f.params[1:] if f.cls is not None and f.kind != "staticmethod" else f.params
             srcs = []
@@ -579,15 +618,9 @@ def _r25(ctx, prog, M, T):
     init = prog.modules.get("pptx")
     if init is None or "content_type_to_part_class_map" not in init.assigns:
         raise AnalysisError("anchor vanished: pptx.content_type_to_part_class_map")
-    tbl = init.assigns["content_type_to_part_class_map"]
-    mp = {}
-    for k, v in zip(tbl.keys, tbl.values):
-        kv = prog.const(k, init)
-        cv = prog.resolve(init, dotted(v) or "")
-        if not isinstance(kv, str) or not isinstance(cv, ClassInfo):
-            ctx.error("%s:%d" % (init.relpath, k.lineno), "registry row does not fold")
-            continue
-        mp[kv] = cv
+    from checks.c15 import part_class_registry
+
+    mp = part_class_registry(prog, ctx)
     ctx.count("registry_rows", len(mp))
     # registration loop must exist
     installed = False
